@@ -516,6 +516,18 @@ func (e *Engine) addEnvIntrinsics() {
 		}
 		return nt.Format(layout)
 	}
+	in["time.Parse"] = func(c *callCtx) Value {
+		layout, ok1 := c.args[0].(string)
+		val, ok2 := c.args[1].(string)
+		if !ok1 || !ok2 {
+			c.s.unsupported("time.Parse of a symbolic string (the symbolic clock formats to opaque digits)")
+		}
+		nt, err := time.Parse(layout, val)
+		if err != nil {
+			return Tuple{mkTime(uint64(0), 0), c.s.newError(err.Error())}
+		}
+		return Tuple{mkTime(uint64(nt.Unix()+unixToInternal), uint64(nt.Nanosecond())), Iface{}}
+	}
 	in["time.FixedZone"] = func(c *callCtx) Value {
 		return NativeVal{time.FixedZone(c.str(0), c.int(1))}
 	}
@@ -794,6 +806,11 @@ func (e *Engine) addEnvIntrinsics() {
 		}
 		e.visible[p+"vDrain"] = true
 		e.yields[p+"vDrain"] = true
+		in[p+"vClockAdvance"] = func(c *callCtx) Value {
+			c.s.env.fixedNow += int64(c.int(0)) * 1e9 // concrete clock only
+			return nil
+		}
+		in[p+"vClockUnix"] = func(c *callCtx) Value { return uint64(c.s.env.fixedNow / 1e9) }
 		in[p+"vClockWindow"] = func(c *callCtx) Value {
 			c.s.env.window = c.int(0)
 			return nil
